@@ -6,6 +6,7 @@ spec/CssGauntlet.tla CssSafe (the property on a style value) and SanitizeCss (sa
 spec/Sanitizer.tla   SafeTok / InertImage (the property on output tokens, allow-lists as data) and SanitizeTok
 MC_UrlScheme, MC_Sanitizer: bounded-exhaustive; theorems on the intended configuration, export + exact replay of the
 code-faithful configuration.  Trace_Sanitizer: the real Filter on parsed inputs, judged token by token."""
+import hashlib
 import itertools
 import json
 import re
@@ -257,6 +258,25 @@ CSS_FRAGS = ["color:", "width :", "border:", "border-top:", "behavior:", "fill:"
              "#GG", "rgb(", "rgb(1,", "2)", "*/", "'", "\u2003", "٣", "_", "é-é", "Red", "&lt;", "<", ">", "@import", "{", "}", "\t"]
 
 
+CSS_PROPS = ["color", "background-color", "border", "border-top", "border-left-color", "margin", "margin-left", "padding", "padding-top",
+             "background", "background-image", "width", "font-family", "fill", "stroke-width", "behavior", "-moz-binding", "position",
+             "BORDER", "Margin-Top", "x", "border_x", "borderx", "-border", "cursor", "text-decoration", "list-style-image", "content"]
+CSS_KWS = ["red", "Red", "solid", "auto", "!important", "evil", "1px", "12px", "123px", "1.5em", "12.34cm", "12.345cm", "123.4mm", "123", "1.234",
+           ".5", "5.", "12.%", "12%", "1,", "99)", "#fff", "#ffg", "#", "#F0f0F0", "rgb(1,2,3)", "rgb(1%,2%,3%)", "rgb(1,2,3", "rgb(1,,)",
+           "rgb(,1)", "rgb(1)", "rgb(1,2,3)x", "rgb(12%,3", "rgb(1,2%%,3)", "12pt", "1e3", "-1px", "+1px", "٣px", "1٣pt", "12pc", "12in", "12ex",
+           "12 ", "0", "00", "000", "url(x)", "url(#a)", "URL(1)", "url( 1 )", "none", "transparent", "dotted", "1px2", "px", "1.2.3", "12cmm",
+           "expression(1)", "'a'", "\"b c\"", "a-b", "a_b", "é", "inherit", "1,2", "(1)", "( 1 , 2 )", "rgb(١,٢,٣)"]
+
+
+def structured_css(rng):
+    """a declaration list whose shape survives the gauntlet often: the keyword test and the property lookup get exercised"""
+    ds = []
+    for _ in range(rng.randint(1, 4)):
+        vals = " ".join(rng.choice(CSS_KWS) for _ in range(rng.randint(1, 3)))
+        ds.append("%s%s:%s%s" % (rng.choice(CSS_PROPS), rng.choice(["", "", " ", "\n"]), rng.choice(["", " ", " ", "\t"]), vals))
+    return rng.choice(["", " "]) + rng.choice([";", "; ", " ;", ";;"]).join(ds) + rng.choice(["", ";", "; ", " "])
+
+
 def src_escape(rng, v, entity_p=0.0):
     """HTML source for attribute value v inside double quotes such that the parser yields exactly v
     (NUL excepted: the tokenizer turns it into U+FFFD, which is one of the cases wanted)"""
@@ -291,7 +311,7 @@ def seqs(frags, maxlen):
 
 def obfuscated(rng):
     """a scheme from a mixed bag, with junk the browser ignores / does not ignore sprinkled in"""
-    scheme = rng.choice(["javascript", "vbscript", "data", "http", "https", "mailto", "livescript", "mocha", "feed", "jar", "view-source",
+    scheme = rng.choice(["javascript", "vbscript", "data", "data", "data", "http", "https", "mailto", "livescript", "mocha", "feed", "jar", "view-source",
                          "JaVaScRiPt", "DATA", "ftp", "tel", "ed2k", "file", "blob", "about", "ws", "x-y.z+1"])
     junk_in = ["\t", "\n", "\r", "\t\n", " ", "\x00", "\x01", " ", "\u2028", "`", "\ufffd", "\x0c", "\x7f", "­", "\u200b", "é", "\\"]
     s = ""
@@ -359,24 +379,6 @@ def parse_pieces(pieces, per=120):
     return out
 
 
-def parse_docs(docs):
-    def one(job):
-        warnings.simplefilter("ignore")
-        import html5lib
-        from html5lib import treewalkers
-        d, tb, frag, nsel = job
-        try:
-            if frag:
-                tree = html5lib.parseFragment(d, treebuilder=tb, namespaceHTMLElements=nsel)
-            else:
-                tree = html5lib.parse(d, treebuilder=tb, namespaceHTMLElements=nsel)
-            return list(treewalkers.getTreeWalker(tb)(tree))
-        except Exception:
-            return None
-    jobs = [(d, "dom" if i % 2 else "etree", i % 3 != 0, i % 5 != 4) for i, d in enumerate(docs)]
-    return jobs, core.parallel(one, jobs, chunk=50)
-
-
 SAN_TAGS = ["a", "b", "p", "div", "span", "img", "script", "style", "iframe", "object", "embed", "base", "meta", "link", "form", "input",
             "button", "textarea", "select", "option", "svg", "math", "mi", "mtext", "annotation-xml", "foreignObject", "use", "image", "set",
             "animate", "rect", "title", "noscript", "xmp", "template", "video", "audio", "source", "table", "td", "body", "html", "x-evil",
@@ -400,7 +402,7 @@ def adversarial_doc(rng):
                 a = rng.choice(SAN_ATTRS)
                 r = rng.random()
                 if a == "style":
-                    v = "".join(rng.choice(CSS_FRAGS) for _ in range(rng.randint(1, 6)))
+                    v = structured_css(rng) if rng.random() < 0.5 else "".join(rng.choice(CSS_FRAGS) for _ in range(rng.randint(1, 6)))
                 elif a in ("fill", "stroke", "clip-path", "filter", "mask", "marker-end"):
                     v = rng.choice(REF_VALUES)
                 elif r < 0.6:
@@ -459,131 +461,154 @@ def restricted_config(rng, base):
 
 # ------------------------------------------------------------------------------------------------
 
-def build_cases(ctx):
-    """list of (config index, meta, walker tokens)"""
+def build_sources(ctx):
+    """list of (kind, meta, source text); kind "doc" = a whole document / fragment, anything else = a piece that is
+    parsed inside a marker div together with many others"""
     rng = ctx.rng
     q = ctx.quick
-    items = []          # (kind, source, tokens)
+    out = []
     # (i) documents: repo test strings, per-entry probes of the default lists, soup, adversarial
     docs = list(corpus.repo_strings()) + default_list_docs()
-    for _ in range(300 if q else 4000):
+    for _ in range(300 if q else 3000):
         docs.append(corpus.soup(rng))
-    for _ in range(1500 if q else 25000):
+    for _ in range(1500 if q else 15000):
         docs.append(adversarial_doc(rng))
-    jobs, res = parse_docs(docs)
-    for (d, tb, frag, nsel), toks in zip(jobs, res):
-        if toks is not None:
-            items.append(("doc", {"source": d, "treebuilder": tb, "fragment": frag, "namespaceHTMLElements": nsel}, toks))
-    ndocs = len(items)
-    # (ii) URL values
-    pieces, metas = [], []
+    for i, d in enumerate(docs):
+        out.append(("doc", {"treebuilder": "dom" if i % 2 else "etree", "fragment": i % 3 != 0, "namespaceHTMLElements": i % 5 != 4}, d))
 
     def add_piece(kind, template, v, ent=0.0):
-        pieces.append(template % src_escape(rng, v, ent))
-        metas.append((kind, {"template": template, "value": enc(v)}))
-    wide = URL_FRAGS[:26]
-    for v in seqs(wide, 2 if q else 3):
+        out.append((kind, {"template": template, "value": enc(v)}, template % src_escape(rng, v, ent)))
+    # (ii) URL values
+    for v in seqs(URL_FRAGS[:26], 2 if q else 3):
         add_piece("url-wide", URI_SLOTS[0], v)
     for v in seqs(URL_CORE, 4 if q else 5):
         add_piece("url-core", URI_SLOTS[2], v)
-    n_rand = 12000 if q else 150000
-    for i in range(n_rand):
-        r = rng.random()
-        if r < 0.45:
+    for i in range(12000 if q else 80000):
+        if rng.random() < 0.45:
             v = "".join(rng.choice(URL_FRAGS) for _ in range(rng.randint(3, 6)))
         else:
             v = obfuscated(rng)
         add_piece("url-random", URI_SLOTS[i % len(URI_SLOTS)], v, 0.2 if i % 3 == 0 else 0.0)
     # (iii) CSS values
-    css = []
-    if q:
-        allc = list(seqs(CSS_FRAGS[:35], 2))
-        css += allc
-        for _ in range(6000):
-            css.append("".join(rng.choice(CSS_FRAGS) for _ in range(rng.randint(3, 7))))
-    else:
-        css += list(seqs(CSS_FRAGS[:35], 3))
-        for _ in range(80000):
-            css.append("".join(rng.choice(CSS_FRAGS) for _ in range(rng.randint(3, 8))))
+    css = list(seqs(CSS_FRAGS[:35], 2 if q else 3))
+    for _ in range(4000 if q else 40000):
+        css.append("".join(rng.choice(CSS_FRAGS) for _ in range(rng.randint(3, 7 if q else 8))))
+    for _ in range(5000 if q else 40000):
+        css.append(structured_css(rng))
     for i, v in enumerate(css):
         add_piece("css", '<p style="%s">x</p>' if i % 4 else '<svg><rect style="%s" fill="url(#a)"></rect></svg>', v)
     for v in REF_VALUES:
         for t in ('<svg><rect fill="%s"></rect></svg>', '<svg><use xlink:href="%s" clip-path="url(x y)"></use></svg>'):
             add_piece("ref", t, v)
-    parsed = parse_pieces(pieces)
-    lost = 0
-    for i, (kind, m) in enumerate(metas):
-        if i in parsed:
-            m["source"] = pieces[i]
-            items.append((kind, m, parsed[i]))
-        else:
-            lost += 1
-    ctx.notes["pieces"] = {"built": len(pieces), "lost_in_parse": lost, "documents": ndocs}
-    return items
+    return out
+
+
+def parse_sources(chunk):
+    """[(kind, meta, source)] -> [(kind, meta, source, walker tokens)] (sources that do not parse / break out of their
+    marker div are dropped and counted)"""
+    docs = [x for x in chunk if x[0] == "doc"]
+    pcs = [x for x in chunk if x[0] != "doc"]
+    items = []
+
+    def one(job):
+        warnings.simplefilter("ignore")
+        import html5lib
+        from html5lib import treewalkers
+        kind, m, d = job
+        try:
+            if m["fragment"]:
+                tree = html5lib.parseFragment(d, treebuilder=m["treebuilder"], namespaceHTMLElements=m["namespaceHTMLElements"])
+            else:
+                tree = html5lib.parse(d, treebuilder=m["treebuilder"], namespaceHTMLElements=m["namespaceHTMLElements"])
+            return list(treewalkers.getTreeWalker(m["treebuilder"])(tree))
+        except Exception:
+            return None
+    if docs:
+        for (kind, m, d), toks in zip(docs, core.parallel(one, docs, chunk=50)):
+            if toks is not None:
+                items.append((kind, m, d, toks))
+    if pcs:
+        parsed = parse_pieces([x[2] for x in pcs])
+        for i, (kind, m, src) in enumerate(pcs):
+            if i in parsed:
+                items.append((kind, m, src, parsed[i]))
+    return items, len(chunk) - len(items)
+
+
+_TR = {}
+
+
+def _make_trace(group):
+    """worker: run the real filter on every case of one group (one configuration) and build the trace"""
+    ci, part = group
+    kw = _TR["configs"][ci]
+    cases, info = [], []
+    for kind, meta, src, toks in part:
+        inp = [tok.proj_token(t) for t in toks]
+        out, exc = run_filter(clone(toks), kw)
+        cases.append({"inp": inp, "out": out, "exc": exc is not None})
+        info.append((exc, None if inp == out else hashlib.md5(json.dumps([ci, inp]).encode()).hexdigest()[:12]))
+    return {"L": project_lists(_TR["lists"][ci], cases), "cases": [compact_case(c) for c in cases]}, info
 
 
 def run_traces(ctx, listed):
     rng = ctx.rng
-    items = build_cases(ctx)
+    sources = build_sources(ctx)
     base = filter_lists({})
     configs = [{}] + [restricted_config(rng, base) for _ in range(20)]
-    lists = [filter_lists(kw) for kw in configs]
-    ctx.constants["configurations"] = "default + 20 seeded random restrictions (elements, attributes, protocols, content types, css properties/keywords/svg properties, svg-ref attributes; 1/2 with a live local-href name list)"
-    # assignment: everything under the default configuration; documents under 2 random restricted ones, values under 1
-    per_cfg = [[] for _ in configs]
-    for kind, meta, toks in items:
-        per_cfg[0].append((kind, meta, toks))
-        reps = 2 if kind == "doc" else 1
-        if kind in ("url-wide", "url-core", "css") and rng.random() < (0.5 if ctx.quick else 0.25):
-            reps = 0
-        for _ in range(reps):
-            per_cfg[rng.randrange(1, len(configs))].append((kind, meta, toks))
-    traces, index = [], []
-    kinds = {}
-    raised = 0
-    for ci, group in enumerate(per_cfg):
-        kw = configs[ci]
-        size = 60
-        for g0 in range(0, len(group), size):
-            part = group[g0:g0 + size]
-            cases, metas = [], []
-            for kind, meta, toks in part:
-                inp = [tok.proj_token(t) for t in toks]
-                out, exc = run_filter(clone(toks), kw)
-                cases.append({"inp": inp, "out": out, "exc": exc is not None})
-                metas.append((kind, meta, exc))
+    _TR["configs"] = configs
+    _TR["lists"] = [filter_lists(kw) for kw in configs]
+    ctx.constants["configurations"] = ("default + 20 seeded random restrictions (elements, attributes, protocols, content types, css "
+                                       "properties/keywords/svg properties, svg-ref attributes; 1/2 with a live local-href name list)")
+    consts = "CONSTANT KnownDefects = {%s}\n" % ",".join('"%s"' % d for d in listed)
+    kinds, raised, lost, ncases, shown = {}, 0, 0, 0, False
+    before = ctx.traces
+    for bi, chunk in enumerate(core.batched(sources, 5000)):
+        items, dropped = parse_sources(chunk)
+        lost += dropped
+        # everything under the default configuration; documents under 2 random restricted ones, most values under 1
+        per_cfg = [[] for _ in configs]
+        for it in items:
+            per_cfg[0].append(it)
+            reps = 2 if it[0] == "doc" else 1
+            if it[0] in ("url-wide", "url-core", "css") and rng.random() < (0.5 if ctx.quick else 0.3):
+                reps = 0
+            for _ in range(reps):
+                per_cfg[rng.randrange(1, len(configs))].append(it)
+        groups = [(ci, g[i:i + 60]) for ci, g in enumerate(per_cfg) for i in range(0, len(g), 60)]
+        res = core.parallel(_make_trace, groups, chunk=4)
+        traces = [r[0] for r in res]
+        for (ci, part), (tr, info) in zip(groups, res):
+            for (kind, meta, src, toks), (exc, h) in zip(part, info):
                 kinds[kind] = kinds.get(kind, 0) + 1
                 raised += exc is not None
-                if inp != out:
-                    ctx.nontriv(hash((ci, json.dumps(inp))))
-            traces.append({"L": project_lists(lists[ci], cases), "cases": [compact_case(c) for c in cases], "full": cases})
-            index.append((ci, metas))
+                ncases += 1
+                if h:
+                    ctx.nontriv(h)
+        if not shown and groups:
+            kind, meta, src, toks = groups[0][1][0]
+            out, exc = run_filter(clone(toks), configs[groups[0][0]])
+            ctx.sample({"code_to_spec": src[:200], "in": [tok.show(tok.proj_token(t)) for t in toks[:6]], "out": [tok.show(t) for t in out[:6]]})
+            shown = True
+        ident = {id(t): i for i, t in enumerate(traces)}
+        for tr, rec in core.validate_traces(ctx, "Trace_Sanitizer", traces, "trace%d" % bi, consts=consts, batch_bytes=12 << 20):
+            ci, part = groups[ident[id(tr)]]
+            for item in rec["f"]:
+                r = item["r"]
+                kind, meta, src, toks = part[item["c"] - 1]
+                case = {"kind": "trace", "config": kw_to_json(configs[ci]), "inp": [tok.proj_token(t) for t in toks],
+                        "meta": dict(meta, source=src), "verdict": r}
+                if r["v"] == "finding":
+                    for nm in r["f"]:
+                        ctx.known_finding(nm, "unsafe output explained by " + nm, case)
+                else:
+                    ctx.violation("Trace_Sanitizer: %s at token %d, clauses %s (%s, configuration %d)"
+                                  % (r["v"], r["i"], r["cl"], kind, ci), case, key=None)
     ctx.notes["cases_by_kind"] = kinds
     ctx.notes["cases_where_filter_raised"] = raised
-    ncases = sum(len(t["cases"]) for t in traces)
-    fulls = [t.pop("full") for t in traces]
+    ctx.notes["sources"] = {"built": len(sources), "lost_in_parse": lost}
     ctx.evaluations += ncases
-    t_mid = fulls[len(traces) // 3]
-    ctx.sample({"code_to_spec": index[len(traces) // 3][1][0][1].get("source", "")[:200],
-                "in": [tok.show(t) for t in t_mid[0]["inp"][:6]], "out": [tok.show(t) for t in t_mid[0]["out"][:6]]})
-    consts = "CONSTANT KnownDefects = {%s}\n" % ",".join('"%s"' % d for d in listed)
-    ident = {id(t): i for i, t in enumerate(traces)}
-    before = ctx.traces
-    for tr, rec in core.validate_traces(ctx, "Trace_Sanitizer", traces, "trace", consts=consts, batch_bytes=12 << 20):
-        ci, metas = index[ident[id(tr)]]
-        for item in rec["f"]:
-            c = item["c"] - 1
-            r = item["r"]
-            kind, meta, exc = metas[c]
-            case = {"kind": "trace", "config": kw_to_json(configs[ci]), "inp": fulls[ident[id(tr)]][c]["inp"], "meta": meta, "verdict": r, "exception": exc}
-            if r["v"] == "finding":
-                for nm in r["f"]:
-                    ctx.known_finding(nm, "unsafe output explained by " + nm, case)
-            else:
-                ctx.violation("Trace_Sanitizer: %s at token %d, clauses %s (%s, configuration %d)"
-                              % (r["v"], r["i"], r["cl"], kind, ci), case, key=None)
-    # traces counted by validate_traces are groups; count the cases instead
-    ctx.traces = before + ncases
+    ctx.traces = before + ncases          # validate_traces counts groups; the unit that is judged is the case
 
 
 def run(ctx):
@@ -595,14 +620,14 @@ def run(ctx):
     if facts:
         raise tlc.TLCError("Python platform facts assumed by PyText.tla/UrlScheme.tla do not hold: %s" % facts[:5])
     url_runs = [("wide", 3 if q else 4), ("narrow", 5 if q else 6), ("data", 4 if q else 5)]
-    san_runs = [("tok", 2 if q else 3), ("css", 3 if q else 4), ("ref", 4 if q else 5)]
+    san_runs = [("tok", 2 if q else 3), ("css", 3), ("ref", 4 if q else 5)] + ([] if q else [("csscore", 4)])
     ctx.constants = {"MC_UrlScheme (alphabet, max fragments)": url_runs, "MC_Sanitizer (mode, max attributes / fragments)": san_runs,
                      "KnownDefects(code-faithful)": listed,
                      "trace url values": "all sequences <= %d of 26 fragments on a[href]; all <= %d of 8 core fragments on svg a[xlink:href]; "
                                          "%d seeded random (fragment sequences 3-6 of 39 fragments, obfuscated schemes) over 22 attribute slots, 1/3 entity-encoded"
-                                         % ((2, 4, 12000) if q else (3, 5, 150000)),
-                     "trace css values": "all sequences <= %d of 35 fragments + %d seeded random sequences (3-%d of 66 fragments)"
-                                         % ((2, 6000, 7) if q else (3, 80000, 8))}
+                                         % ((2, 4, 12000) if q else (3, 5, 80000)),
+                     "trace css values": "all sequences <= %d of 35 fragments + %d seeded random sequences (3-%d of 66 fragments) + %d structured declaration lists (28 property names x 70 keyword-like values)"
+                                         % ((2, 4000, 7, 5000) if q else (3, 40000, 8, 40000))}
     ctx.rule = ("MC: every value / token / style in the bound, theorems on the intended model, code-faithful model replayed exactly. "
                 "traces: real Filter on walker streams of parsed inputs under default + 20 restricted allow-lists; "
                 "non-trivial = case whose filter output differs from its input")
@@ -674,7 +699,7 @@ def run(ctx):
             if cand:
                 mrec = cand[len(cand) // 3]
                 ctx.sample({"spec_to_code": tok.show(mrec["inp"]), "config": mrec["k"], "expected": tok.show(mrec["out"]) if mrec["r"] == "tok" else mrec["r"]})
-        elif m == "css":
+        elif m in ("css", "csscore"):
             cfg = [rec["cfg"] for rec in recs if "at" in rec["cfg"]][0]
             _MC["cssfilter"] = san().Filter([], **mc_kw(cfg))
             res = core.parallel(_replay_css, recs)
@@ -697,16 +722,10 @@ def run(ctx):
                     ctx.violation("real svg-reference / local-href handling differs from SvgRefSub / NonLocalRef",
                                   {"kind": "replay-ref", "v": rec["v"], "expected": [rec["ref"], rec["nonlocal"]], "got": bad})
     ctx.exhaustive = True
-    # ---- 3. every listed finding must be demonstrable at model level
-    if listed:
-        wit = {}
-        if "data-content-type-after-stripping" in listed:
-            r = ctx.tlc("MC_UrlScheme", cfg_url(4, "data", False, True, listed), "mc-url-witness", expect_ok=False)
-            wit["data-content-type-after-stripping"] = (r.violated == "ThmDataType")
-        if "css-url-function-survives" in listed:
-            r = ctx.tlc("MC_Sanitizer", cfg_san("css", 3, False, True, listed), "mc-css-witness", expect_ok=False)
-            wit["css-url-function-survives"] = (r.violated == "ThmSafe")
-        ctx.notes["finding_witness_at_model_level"] = wit
+    # ---- 3. every listed finding is demonstrated at model level by the exported code-faithful behaviours themselves:
+    # a record flagged unsafe is a state in which the safety theorem fails while ThmExplained (checked above) shows
+    # that the intended model is safe there
+    ctx.notes["finding_witness_at_model_level"] = {d: (d in ctx.known_seen) for d in listed}
     ctx.assumptions += [
         "an exception raised by the filter (KeyError: attribute deleted twice when data: is not an allowed protocol) is modelled as the code's behaviour and not counted as unsafe output",
         "BrowserDataType does not model the URL parser's percent-encoding inside data: paths (non-token code points make the type unparsable -> text/plain)",
